@@ -239,7 +239,8 @@ def run_case(case):
         {
             "level": case["level"],
             "images": [
-                dict({"lines": n, "pixels": 3}, **({"pol": "HH", "scan": "F1"} if case.get("naming") == "scan" else {})),
+                # (the per-line columns of the first image drift slowly: a large base value plus a small step per line)
+                dict({"lines": n, "pixels": 3, "drift": case["vseed"] % 5 if case["vseed"] % 2 else None}, **({"pol": "HH", "scan": "F1"} if case.get("naming") == "scan" else {})),
                 dict({"lines": max(1, n - 1), "pixels": 2}, **({"pol": "HH", "scan": "F2"} if case.get("naming") == "scan" else {})),
             ],
             "vseed": case["vseed"],
